@@ -549,3 +549,9 @@ Section E2E.
   Qed.
 
 End E2E.
+
+(** Side condition of the several-feeders statements (Sio/EndToEndFeeders.v): every delivery is fed
+    to the parser atomically, and while another transport's delivery is still in flight a
+    transport that delivers frame by frame (websocket) carries no packet with attachments. *)
+Definition feeders_safe (delivery_atomic ws_attachments_while_poll_in_flight : bool) : bool :=
+  delivery_atomic && negb ws_attachments_while_poll_in_flight.
